@@ -28,6 +28,9 @@ type c05Job struct {
 	// the "unrelated" retrievals of operation X (parsed once; they only serve to cycle the pools)
 	x1, x2 func(interface{}) ([]interface{}, error)
 	xdoc   interface{}
+	// nLadder: the first nLadder paths (all step kinds, no exhaustive filter atoms) are also
+	// explored in accessor mode
+	nLadder int
 }
 
 func newC05(tier string) run.Job {
@@ -47,6 +50,7 @@ func newC05(tier string) run.Job {
 			add(p)
 		}
 	}
+	j.nLadder = len(j.paths)
 	for _, q := range gen.Atoms() {
 		add(gen.P('$', gen.Filter(q)))
 		add(gen.P('$', gen.Name("a"), gen.Filter(q)))
@@ -68,10 +72,15 @@ func newC05(tier string) run.Job {
 	return j
 }
 
-func (j *c05Job) NumUnits() int { return len(j.paths) }
+// units: every path in plain mode, then the ladder paths again in accessor mode
+func (j *c05Job) NumUnits() int { return len(j.paths) + j.nLadder }
 func (j *c05Job) Describe(i int) map[string]interface{} {
-	t := gen.Render(j.paths[i], nil).Text
-	return map[string]interface{}{"unit": i, "path": t, "sig": "path:" + t}
+	k := i
+	if i >= len(j.paths) {
+		k = i - len(j.paths)
+	}
+	t := gen.Render(j.paths[k], nil).Text
+	return map[string]interface{}{"unit": i, "path": t, "accessor": i >= len(j.paths), "sig": "path:" + t}
 }
 
 func outcomeString(res impl.CallResult) string {
@@ -81,7 +90,15 @@ func outcomeString(res impl.CallResult) string {
 	case res.ErrType != "":
 		return res.ErrType + ": " + res.ErrMsg
 	}
-	return show(res.Values)
+	return showAcc(res.Values)
+}
+
+// showAcc renders a result slice; accessors are rendered through Get().
+func showAcc(vs []interface{}) string {
+	if got, isAcc := impl.Unwrap(vs); isAcc && len(vs) > 0 {
+		return "accessors" + show(got)
+	}
+	return show(vs)
 }
 
 // docShape is the structure of a document with leaf values erased.
@@ -173,11 +190,15 @@ func c05OpString(op int, text []string) string {
 }
 
 // c05Run executes one history with the given pool-choice prefix on fresh objects and checks it.
-func (j *c05Job) c05Run(pathText string, hist []int, refs map[int]string, prefix []int) (x *sched.Exec, ok bool, detail string) {
+func (j *c05Job) c05Run(pathText string, acc bool, hist []int, refs map[int]string, prefix []int) (x *sched.Exec, ok bool, detail string) {
 	sched.ResetPools()
 	ok = true
+	cfg := &j.env.Cfg
+	if acc {
+		cfg = &j.env.CfgAcc
+	}
 	x, pmsg := sched.RunSequential(sched.Options{PoolChoices: true}, prefix, func() {
-		pr := impl.Parse(pathText, &j.env.Cfg)
+		pr := impl.Parse(pathText, cfg)
 		if pr.F == nil {
 			ok, detail = false, "does not parse"
 			return
@@ -190,7 +211,7 @@ func (j *c05Job) c05Run(pathText string, hist []int, refs map[int]string, prefix
 		var results []kept
 		verify := func(after string) bool {
 			for ri, k := range results {
-				if got := show(k.slice); got != k.want {
+				if got := showAcc(k.slice); got != k.want {
 					ok, detail = false, fmt.Sprintf("result slice #%d returned earlier changed to %s (was %s) after %s", ri, got, k.want, after)
 					return false
 				}
@@ -214,7 +235,7 @@ func (j *c05Job) c05Run(pathText string, hist []int, refs map[int]string, prefix
 					for i := range last.slice {
 						last.slice[i] = "SCRIBBLED"
 					}
-					last.want = show(last.slice)
+					last.want = showAcc(last.slice)
 				}
 			default:
 				if _, have := docs[op]; !have {
@@ -226,7 +247,7 @@ func (j *c05Job) c05Run(pathText string, hist []int, refs map[int]string, prefix
 					return
 				}
 				if res.ErrType == "" {
-					results = append(results, kept{res.Values, show(res.Values)})
+					results = append(results, kept{res.Values, showAcc(res.Values)})
 				}
 			}
 			if !verify(c05OpString(op, j.text)) {
@@ -241,9 +262,18 @@ func (j *c05Job) c05Run(pathText string, hist []int, refs map[int]string, prefix
 }
 
 func (j *c05Job) RunUnit(i int, c *run.Ctx) {
-	p := j.paths[i]
+	acc := i >= len(j.paths)
+	pi := i
+	if acc {
+		pi = i - len(j.paths)
+	}
+	p := j.paths[pi]
 	pathText := gen.Render(p, nil).Text
-	pr := impl.Parse(pathText, &j.env.Cfg)
+	cfg := &j.env.Cfg
+	if acc {
+		cfg = &j.env.CfgAcc
+	}
+	pr := impl.Parse(pathText, cfg)
 	if pr.F == nil {
 		c.Add("paths_rejected", 1)
 		return
@@ -252,11 +282,14 @@ func (j *c05Job) RunUnit(i int, c *run.Ctx) {
 	if j.tier == "thorough" {
 		nDocs, depth, bound = 5, 4, 2
 	}
+	if acc {
+		depth-- // accessor mode shares everything but the final wrapping: shorter histories
+	}
 	chosen := j.chooseDocs(pr.F, nDocs)
 	// reference outcomes: fresh Retrieve (new Parse) on a deep copy, before any history starts
 	refs := map[int]string{}
 	for _, di := range chosen {
-		fp := impl.Parse(pathText, &j.env.Cfg)
+		fp := impl.Parse(pathText, cfg)
 		refs[di] = outcomeString(impl.Call(fp.F, gen.Clone(j.docs[di])))
 	}
 	alphabet := append(append([]int{}, chosen...), c05X, c05W)
@@ -264,11 +297,11 @@ func (j *c05Job) RunUnit(i int, c *run.Ctx) {
 	exploreHistory := func(hist []int) {
 		st := sched.Explore(bound, 20000, func(prefix []int) *sched.Exec {
 			c.Tick()
-			x, ok, detail := j.c05Run(pathText, hist, refs, prefix)
+			x, ok, detail := j.c05Run(pathText, acc, hist, refs, prefix)
 			c.Evals++
 			if !ok && !violated {
 				// confirm by replaying the same choices
-				_, ok2, detail2 := j.c05Run(pathText, hist, refs, trimChoices(append([]int{}, x.Choices...)))
+				_, ok2, detail2 := j.c05Run(pathText, acc, hist, refs, trimChoices(append([]int{}, x.Choices...)))
 				if ok2 || detail2 != detail {
 					c.Add("nondeterministic_replays", 1)
 				} else {
@@ -279,9 +312,9 @@ func (j *c05Job) RunUnit(i int, c *run.Ctx) {
 					}
 					c.Violate(run.Violation{
 						Sig:    "impure:" + gen.Shape(p),
-						Detail: fmt.Sprintf("%s, history [%s], pool answers [%s]: %s", pathText, strings.Join(hs, "; "), choicesString(trimChoices(x.Choices)), detail),
+						Detail: fmt.Sprintf("%s (accessor mode: %v), history [%s], pool answers [%s]: %s", pathText, acc, strings.Join(hs, "; "), choicesString(trimChoices(x.Choices)), detail),
 						Size:   len(hist)*1000 + len(pathText),
-						Case:   map[string]interface{}{"path": pathText, "history": hist, "docs": j.text, "choices": choicesString(trimChoices(x.Choices))},
+						Case:   map[string]interface{}{"path": pathText, "accessor": acc, "history": hist, "choices": choicesString(trimChoices(x.Choices))},
 					})
 				}
 			}
@@ -341,8 +374,8 @@ func init() {
 			"histories longer than the bound are not explored; state hidden inside the parsed tree is observed only through call results",
 		},
 		Bounds: map[string]string{
-			"quick":    "paths: <=2 steps over the 50-step alphabet (+ functions after <=1 step), every atom as $[?()] and $.a[?()], every A&&B / A||B over 24 atoms, 13 function filters (about 4.6k); alphabet: calls on 4 documents (first success, same-shape documents with another outcome, other outcome classes) + X (unrelated Retrieve cycling both pools) + W (scribble on the last result); all histories of length <=3; pool answers <=1 deviation",
-			"thorough": "5 documents, histories of length <=4, pool answers <=2 deviations",
+			"quick":    "paths: <=2 steps over the 50-step alphabet (+ functions after <=1 step), every atom as $[?()] and $.a[?()], every A&&B / A||B over 24 atoms, 13 function filters (about 4.6k); alphabet: calls on 4 documents (first success, same-shape documents with another outcome, other outcome classes) + X (unrelated Retrieve cycling both pools) + W (scribble on the last result); all histories of length <=3 in plain mode and <=2 in accessor mode; pool answers <=1 deviation",
+			"thorough": "5 documents, histories of length <=4 (accessor mode <=3), pool answers <=2 deviations",
 		},
 		New: newC05,
 		Replay: func(cs map[string]interface{}) (bool, string) {
@@ -357,10 +390,15 @@ func init() {
 					hist = append(hist, n)
 				}
 			}
+			acc, _ := cs["accessor"].(bool)
+			cfg := &j.env.Cfg
+			if acc {
+				cfg = &j.env.CfgAcc
+			}
 			refs := map[int]string{}
 			for _, op := range hist {
 				if op >= 0 {
-					fp := impl.Parse(pathText, &j.env.Cfg)
+					fp := impl.Parse(pathText, cfg)
 					if fp.F == nil {
 						return false, "does not parse"
 					}
@@ -368,7 +406,7 @@ func init() {
 				}
 			}
 			chs, _ := cs["choices"].(string)
-			_, ok, detail := j.c05Run(pathText, hist, refs, parseChoices(chs))
+			_, ok, detail := j.c05Run(pathText, acc, hist, refs, parseChoices(chs))
 			return !ok, detail
 		},
 	})
